@@ -108,8 +108,17 @@ def class_dispatch(ctx, obs, rule='EXH-class'):
                 obs.bad(rule, reader, f'class {name} can be rebuilt', f'{reader} has no arm for type {name!r}', where(prog, f, f.node))
                 continue
             built = [_leaf(c.func) for s in arms[name].body for c in ast.walk(s) if isinstance(c, ast.Call)]
-            obs.check(name in built, rule, reader, f'class {name} can be rebuilt', f'arm for {name!r} constructs {built}', '',
-                      where(prog, f, arms[name]))
+            named = {n_.id for s in arms[name].body for n_ in ast.walk(s) if isinstance(n_, ast.Name)} | \
+                {n_.attr for s in arms[name].body for n_ in ast.walk(s) if isinstance(n_, ast.Attribute)}
+            others = {prog.classes[c2].name for c2 in classes} - {name}
+            if name in built or name in named:
+                # constructs the class, or selects it (cls = Name) for a shared constructor call
+                obs.ok(rule, reader, f'class {name} can be rebuilt', '', where(prog, f, arms[name]))
+            elif (set(built) | named) & others:
+                obs.bad(rule, reader, f'class {name} can be rebuilt', f'arm for {name!r} builds {sorted((set(built) | named) & others)}',
+                        where(prog, f, arms[name]))
+            else:
+                obs.unk(rule, reader, f'class {name} can be rebuilt', f'arm for {name!r} names no class', where(prog, f, arms[name]))
 
 
 def _acts(stmts) -> bool:
@@ -349,8 +358,21 @@ def loaders(ctx, obs, rule='EXH-class'):
         for t in tails:
             if isinstance(t.test.comparators[0], ast.Constant) and t.test.comparators[0].value is None:
                 continue
-            obs.check(bool(t.orelse) and isinstance(t.orelse[-1], ast.Raise), rule, q, 'an unknown file type is rejected',
-                      'no raising else-arm', '', where(prog, f, t))
+            # else: raise  |  early-return style: every arm returns and a raise follows the chain in the same block
+            ends_raise = bool(t.orelse) and isinstance(t.orelse[-1], ast.Raise)
+            follows = False
+            for blk in [x for x in ast.walk(f.node) if hasattr(x, 'body') and isinstance(getattr(x, 'body'), list)]:
+                for fld in ('body', 'orelse'):
+                    seq = getattr(blk, fld, None)
+                    if isinstance(seq, list) and t in seq:
+                        rest = seq[seq.index(t) + 1:]
+                        follows = any(isinstance(x, ast.Raise) for x in rest) and any(isinstance(x, ast.Return) for x in ast.walk(t))
+            if ends_raise or follows:
+                obs.ok(rule, q, 'an unknown file type is rejected', '', where(prog, f, t))
+            elif t.orelse and not isinstance(t.orelse[-1], ast.Raise):
+                obs.bad(rule, q, 'an unknown file type is rejected', 'the chain ends in an else-arm that does not raise', where(prog, f, t))
+            else:
+                obs.unk(rule, q, 'an unknown file type is rejected', 'no raise recognised after the file-type chain', where(prog, f, t))
 
 
 def _fmt_prefix(e):
